@@ -4,6 +4,7 @@ package main
 // C01 (R01.3), C14 (R14.1, R14.2) and C17 (R17.1, R17.2).
 
 import (
+	"strings"
 	"fmt"
 	"go/token"
 	"go/types"
@@ -1244,4 +1245,109 @@ func ruleR17_1(w *World, r *Report) {
 		}
 		r.Check(bad == "", "R17.1", key, cpos, "copier reports exactly once after io.Copy*, io.EOF only when the copy returned nil", bad)
 	}
+}
+
+// ---------------------------------------------------------------------------------------------
+// rulePoolMemoryStaysLocal: memory taken from a sync.Pool goes back to the pool and is handed to the next
+// taker, whoever that is (another session's request, the next answer). It may therefore be used as scratch
+// space only: it must not be stored into a field or an element of anything, nor returned — a record that keeps
+// the slice is packed after the buffer was recycled, a parked packet is overwritten by the next request
+// decoded. Conversions to string copy and are fine.
+func poolOrigin(v ssa.Value) bool {
+	seen := map[ssa.Value]bool{}
+	var walk func(v ssa.Value, d int) bool
+	walk = func(v ssa.Value, d int) bool {
+		if v == nil || seen[v] || d > 12 {
+			return false
+		}
+		seen[v] = true
+		switch x := v.(type) {
+		case *ssa.Call:
+			if f := sCallee(x); f != nil && isMethod(f, "sync", "Pool", "Get") {
+				return true
+			}
+			if b, ok := x.Call.Value.(*ssa.Builtin); ok && b.Name() == "append" && len(x.Call.Args) > 0 {
+				return walk(x.Call.Args[0], d+1)
+			}
+		case *ssa.Slice:
+			return walk(x.X, d+1)
+		case *ssa.UnOp:
+			return walk(x.X, d+1)
+		case *ssa.TypeAssert:
+			return walk(x.X, d+1)
+		case *ssa.Extract:
+			return walk(x.Tuple, d+1)
+		case *ssa.ChangeType:
+			return walk(x.X, d+1)
+		case *ssa.MakeInterface:
+			return walk(x.X, d+1)
+		case *ssa.Phi:
+			for _, e := range x.Edges {
+				if walk(e, d+1) {
+					return true
+				}
+			}
+		case *ssa.Alloc:
+			for _, st := range storesTo(x) {
+				if walk(st.Val, d+1) {
+					return true
+				}
+			}
+		}
+		return false
+	}
+	return walk(v, 0)
+}
+
+func rulePoolMemoryStaysLocal(w *World, r *Report, rule string, inScope func(pkgPath string) bool) {
+	npool := 0
+	var bad []string
+	for fn := range allModuleFuncs(w, w.SSA()) {
+		f0 := fn
+		for f0.Parent() != nil {
+			f0 = f0.Parent()
+		}
+		if f0.Pkg == nil || !inScope(f0.Pkg.Pkg.Path()) {
+			continue
+		}
+		allInstrs(fn, func(in ssa.Instruction) {
+			switch x := in.(type) {
+			case *ssa.Call:
+				if f := sCallee(x); f != nil && isMethod(f, "sync", "Pool", "Get") {
+					npool++
+				}
+			case *ssa.Store:
+				switch x.Addr.(type) {
+				case *ssa.FieldAddr, *ssa.IndexAddr:
+					if isByteSliceOrPtr(x.Val.Type()) && poolOrigin(x.Val) {
+						bad = append(bad, fmt.Sprintf("%s: memory taken from a sync.Pool is stored into a field/element in %s: whatever keeps that reference reads (or is overwritten by) the next taker's data once the buffer is back in the pool", w.Pos(x.Pos()), ssaFuncKey(fn)))
+					}
+				}
+			case *ssa.Return:
+				for _, res := range x.Results {
+					if isByteSliceOrPtr(res.Type()) && poolOrigin(res) {
+						bad = append(bad, fmt.Sprintf("%s: memory taken from a sync.Pool is returned by %s", w.Pos(x.Pos()), ssaFuncKey(fn)))
+					}
+				}
+			}
+		})
+	}
+	sort.Strings(bad)
+	if npool == 0 {
+		r.Hold(rule, "pool:none", "-", "no sync.Pool is used in scope: no recycled memory can be shared between requests, answers or sessions")
+		return
+	}
+	r.Check(len(bad) == 0, rule, "pool:escapes", "-", fmt.Sprintf("%d sync.Pool.Get site(s); pooled memory is used as scratch space only (never stored into a field/element, never returned)", npool), strings.Join(bad, "; "))
+}
+
+func isByteSliceOrPtr(t types.Type) bool {
+	if p, ok := t.Underlying().(*types.Pointer); ok {
+		t = p.Elem()
+	}
+	if s, ok := t.Underlying().(*types.Slice); ok {
+		if b, ok := s.Elem().Underlying().(*types.Basic); ok && b.Kind() == types.Uint8 {
+			return true
+		}
+	}
+	return false
 }
